@@ -1,23 +1,27 @@
 (* driver `perm` (C18): one case = a sequence of file-system operations and
    calls performed on real files by the harness, with what the real code did at
    every call.  [mismatch] replays the sequence in the model; [holdsb] judges
-   the property on the implementation's own observation, using the file
-   attributes the harness read from the real file system just before the call. *)
+   the property on the implementation's own observation: the file attributes
+   the harness read from the real file system just before the call, and — for
+   EVERY start of the executable inside the call — the attributes the started
+   script read from its own file at that moment. *)
 From F2G Require Export Drv.Common Model.Exec.
 From F2G Require Import Proofs.ExecPerm.
 From Coq Require Import Lia.
 
 Record obs := mkObs {
-  ob_stat : option (Z * Z * Z);  (* harness: uid, gid, mode&07777 of the file the path leads to (readlink loop), None = none *)
-  ob_ran : option Z;             (* id the started script wrote to the marker file; None = nothing ran *)
-  ob_res : Z;                    (* 0 = nil error, 1 = error returned, 2 = panic *)
-  ob_reason : Z;                 (* projected error: 0 none, 1 symlink, 2 not found, 3 stat, 4 owner, 5 group write,
-                                    6 other write, 7 could not start, 8 other validation error *)
+  ob_stat : option (Z * Z * Z);        (* harness, before the call: uid, gid, mode&07777 of the file the path leads to *)
+  ob_starts : list (Z * (Z * Z * Z));  (* one entry per start inside the call, written by the started script itself:
+                                          its id and stat -L of its own path at that moment *)
+  ob_res : Z;                          (* 0 = nil error, 1 = error returned, 2 = panic *)
+  ob_reason : Z;                       (* projected error: 0 none, 1 symlink, 2 not found, 3 stat, 4 owner, 5 group write,
+                                          6 other write, 7 could not start / command failed, 8 other validation error *)
 }.
 
 Record case := mkCase {
+  c_failing : list Z;            (* ids whose script exits with status 1 (all others print 42 and exit 0) *)
   c_ops : list op;               (* performed on an empty directory *)
-  c_obs : list obs;              (* one per OpExec / OpValidate, in order *)
+  c_obs : list obs;              (* one per OpExec / OpExecDuring / OpValidate, in order *)
 }.
 
 (* ---- model side ---- *)
@@ -30,47 +34,60 @@ Definition reason_code (e : perm_err) : Z :=
 Definition stat_of (s : fs) (p : Z) : option (Z * Z * Z) :=
   match follow 300 s p with RFile _ u g m => Some (u, g, m) | _ => None end.
 
-Definition model_obs (s : fs) (o : op) : option obs :=
+Definition memb (x : Z) (l : list Z) : bool := existsb (Z.eqb x) l.
+
+(* api 5 = initializeSensors: the error of the sensor's first read is logged, not returned *)
+Definition call_obs (failing : list Z) (s : fs) (api p : Z) : obs :=
+  let swallow := api =? 5 in
+  match exec_call s p with
+  | Ran f u g m =>
+      let bad := memb f failing && negb swallow in
+      mkObs (stat_of s p) [(f, (u, g, m))] (if bad then 1 else 0) (if bad then 7 else 0)
+  | Refused e => mkObs (stat_of s p) [] (if swallow then 0 else 1) (if swallow then 0 else reason_code e)
+  | StartFailed => mkObs (stat_of s p) [] (if swallow then 0 else 1) (if swallow then 0 else 7)
+  | Panicked => mkObs (stat_of s p) [] 2 0
+  end.
+
+Definition model_obs (failing : list Z) (s : fs) (o : op) : option obs :=
   match o with
-  | OpExec _ p =>
-      Some match exec_call s p with
-           | Ran f _ _ _ => mkObs (stat_of s p) (Some f) 0 0
-           | Refused e => mkObs (stat_of s p) None 1 (reason_code e)
-           | StartFailed => mkObs (stat_of s p) None 1 7
-           | Panicked => mkObs (stat_of s p) None 2 0
-           end
+  | OpExec api p | OpExecDuring api p _ => Some (call_obs failing s api p)
   | OpValidate c p =>
       Some match validate c s p with
-           | VOk => mkObs (stat_of s p) None 0 0
-           | VErrOther => mkObs (stat_of s p) None 1 8
-           | VErrPerm e => mkObs (stat_of s p) None 1 (reason_code e)
-           | VPanic => mkObs (stat_of s p) None 2 0
+           | VOk => mkObs (stat_of s p) [] 0 0
+           | VErrOther => mkObs (stat_of s p) [] 1 8
+           | VErrPerm e => mkObs (stat_of s p) [] 1 (reason_code e)
+           | VPanic => mkObs (stat_of s p) [] 2 0
            end
   | _ => None
   end.
 
-Fixpoint model_run (s : fs) (ops : list op) : list obs :=
+Fixpoint model_run (failing : list Z) (s : fs) (ops : list op) : list obs :=
   match ops with
   | [] => []
-  | o :: r => match model_obs s o with
-              | Some ob => ob :: model_run (apply_op s o) r
-              | None => model_run (apply_op s o) r
+  | o :: r => match model_obs failing s o with
+              | Some ob => ob :: model_run failing (apply_op s o) r
+              | None => model_run failing (apply_op s o) r
               end
   end.
 
+Definition attrs_eqb (a b : Z * Z * Z) : bool :=
+  let '(u, g, m) := a in let '(u', g', m') := b in (u =? u') && (g =? g') && (m =? m').
+
 Definition stat_eqb (a b : option (Z * Z * Z)) : bool :=
   match a, b with
-  | Some (u, g, m), Some (u', g', m') => (u =? u') && (g =? g') && (m =? m')
+  | Some x, Some y => attrs_eqb x y
   | None, None => true
   | _, _ => false
   end.
 
+Definition start_eqb (a b : Z * (Z * Z * Z)) : bool := (fst a =? fst b) && attrs_eqb (snd a) (snd b).
+
 Definition obs_eqb (a b : obs) : bool :=
-  stat_eqb (ob_stat a) (ob_stat b) && optZ_eqb (ob_ran a) (ob_ran b)
+  stat_eqb (ob_stat a) (ob_stat b) && list_eqb start_eqb (ob_starts a) (ob_starts b)
   && (ob_res a =? ob_res b) && (ob_reason a =? ob_reason b).
 
 Definition mismatch (c : case) : bool :=
-  negb (list_eqb obs_eqb (model_run [] (c_ops c)) (c_obs c)).
+  negb (list_eqb obs_eqb (model_run (c_failing c) [] (c_ops c)) (c_obs c)).
 
 (* ---- the property on the implementation's observation ---- *)
 Definition stat_allowedb (o : obs) : bool :=
@@ -79,20 +96,27 @@ Definition stat_allowedb (o : obs) : bool :=
 Definition stat_allowed (o : obs) : Prop :=
   exists u g m, ob_stat o = Some (u, g, m) /\ root_controlled u g m.
 
-(* an external-command call: it ran only a root-controlled file; a file that is
-   not root-controlled gave an error and nothing ran *)
-Definition Call_holds (o : obs) : Prop :=
-  (ob_ran o <> None -> stat_allowed o) /\
-  (~ stat_allowed o -> ob_res o = 1 /\ ob_ran o = None).
+Definition start_okb (st : Z * (Z * Z * Z)) : bool :=
+  let '(_, (u, g, m)) := st in allowed u g m.
+Definition start_ok (st : Z * (Z * Z * Z)) : Prop :=
+  let '(_, (u, g, m)) := st in root_controlled u g m.
+
+(* an external-command call: EVERY start inside the call was of a file that was
+   root-controlled at that start; a path that does not lead to a root-controlled
+   file gave an error (api 5: a logged one) and nothing was started *)
+Definition Call_holds (api : Z) (o : obs) : Prop :=
+  Forall start_ok (ob_starts o) /\
+  (~ stat_allowed o -> (api <> 5 -> ob_res o = 1) /\ ob_starts o = []).
 
 (* Validate of a configuration that declares a command sensor or fan *)
 Definition Validate_holds (o : obs) : Prop :=
   (ob_res o = 0 -> stat_allowed o) /\ (~ stat_allowed o -> ob_res o = 1).
 
-Definition is_some {A} (x : option A) : bool := match x with Some _ => true | None => false end.
+Definition is_nil {A} (l : list A) : bool := match l with [] => true | _ => false end.
 
-Definition call_okb (o : obs) : bool :=
-  if stat_allowedb o then true else (ob_res o =? 1) && negb (is_some (ob_ran o)).
+Definition call_okb (api : Z) (o : obs) : bool :=
+  forallb start_okb (ob_starts o) &&
+  (stat_allowedb o || (((api =? 5) || (ob_res o =? 1)) && is_nil (ob_starts o))).
 
 Definition validate_okb (o : obs) : bool :=
   if stat_allowedb o then true else (ob_res o =? 1).
@@ -106,16 +130,29 @@ Proof.
   - split; [discriminate|]. intros [u [g [m [E _]]]]. discriminate.
 Qed.
 
-Lemma call_okb_spec o : call_okb o = true <-> Call_holds o.
+Lemma start_okb_spec st : start_okb st = true <-> start_ok st.
+Proof. destruct st as [f [[u g] m]]. cbn. apply allowed_spec. Qed.
+
+Lemma starts_okb_spec l : forallb start_okb l = true <-> Forall start_ok l.
 Proof.
-  unfold call_okb, Call_holds. destruct (stat_allowedb o) eqn:A.
-  - apply stat_allowedb_spec in A. split; [|reflexivity]. intros _. split; [auto|]. intros N. contradiction.
-  - assert (N : ~ stat_allowed o) by (intro H; apply stat_allowedb_spec in H; congruence).
-    rewrite andb_true_iff, Z.eqb_eq, negb_true_iff. split.
-    + intros [R Q]. split.
-      * intros H. destruct (ob_ran o); [discriminate|contradiction].
-      * intros _. split; [exact R|]. destruct (ob_ran o); [discriminate|reflexivity].
-    + intros [_ H]. destruct (H N) as [R Q]. rewrite Q. auto.
+  rewrite forallb_forall, Forall_forall. split; intros H x Hx; apply start_okb_spec; auto.
+Qed.
+
+Lemma is_nil_spec {A} (l : list A) : is_nil l = true <-> l = [].
+Proof. destruct l; cbn; split; congruence. Qed.
+
+Lemma call_okb_spec api o : call_okb api o = true <-> Call_holds api o.
+Proof.
+  unfold call_okb, Call_holds. rewrite andb_true_iff, starts_okb_spec.
+  split; intros [H1 H2]; (split; [exact H1|]).
+  - intros N. apply orb_true_iff in H2. destruct H2 as [A|B].
+    + apply stat_allowedb_spec in A. contradiction.
+    + apply andb_true_iff in B. destruct B as [B1 B2]. apply is_nil_spec in B2. split; [|exact B2].
+      intros N5. apply orb_true_iff in B1. destruct B1 as [B1|B1]; [apply Z.eqb_eq in B1; contradiction|now apply Z.eqb_eq].
+  - destruct (stat_allowedb o) eqn:A; [reflexivity|]. cbn [orb].
+    assert (N : ~ stat_allowed o) by (intro H; apply stat_allowedb_spec in H; congruence).
+    destruct (H2 N) as [R Q]. rewrite Q. cbn [is_nil]. rewrite andb_true_r.
+    destruct (Z.eqb_spec api 5) as [E|NE]; [reflexivity|]. cbn [orb]. apply Z.eqb_eq. auto.
 Qed.
 
 Lemma validate_okb_spec o : validate_okb o = true <-> Validate_holds o.
@@ -132,7 +169,8 @@ Qed.
 Fixpoint holds_ops (ops : list op) (os : list obs) : bool :=
   match ops with
   | [] => match os with [] => true | _ => false end
-  | OpExec _ _ :: r => match os with o :: os' => call_okb o && holds_ops r os' | [] => false end
+  | OpExec api _ :: r | OpExecDuring api _ _ :: r =>
+      match os with o :: os' => call_okb api o && holds_ops r os' | [] => false end
   | OpValidate c _ :: r =>
       match os with
       | o :: os' => (if has_cmd c then validate_okb o else negb (ob_res o =? 2)) && holds_ops r os'
@@ -146,7 +184,8 @@ Definition holdsb (c : case) : bool := holds_ops (c_ops c) (c_obs c).
 Fixpoint Holds_ops (ops : list op) (os : list obs) : Prop :=
   match ops with
   | [] => os = []
-  | OpExec _ _ :: r => match os with o :: os' => Call_holds o /\ Holds_ops r os' | [] => False end
+  | OpExec api _ :: r | OpExecDuring api _ _ :: r =>
+      match os with o :: os' => Call_holds api o /\ Holds_ops r os' | [] => False end
   | OpValidate c _ :: r =>
       match os with
       | o :: os' => (if has_cmd c then Validate_holds o else ob_res o <> 2) /\ Holds_ops r os'
@@ -166,25 +205,8 @@ Proof.
       rewrite andb_true_iff, IH. destruct (has_cmd c).
       * rewrite validate_okb_spec. reflexivity.
       * rewrite negb_true_iff, Z.eqb_neq. reflexivity.
-Qed.
-
-(* the model's own observation of a call satisfies the observer, in every file
-   system: a case with mismatch = false cannot fail [Call_holds] at a call *)
-Lemma model_call_holds s api p ob :
-  model_obs s (OpExec api p) = Some ob -> Call_holds ob.
-Proof.
-  cbn [model_obs]. intros H. inversion H as [E]. clear H E.
-  destruct (exec_call s p) as [f u g m|e| |] eqn:X.
-  - apply exec_call_ran in X. destruct X as [R [A _]].
-    assert (S : stat_of s p = Some (u, g, m)).
-    { unfold stat_of. unfold eval_symlinks in R.
-      rewrite (follow_mono _ _ _ _ _ _ _ R 300%nat) by (unfold go_maxlinks; lia). reflexivity. }
-    assert (SA : stat_allowed (mkObs (stat_of s p) (Some f) 0 0)).
-    { exists u, g, m. cbn [ob_stat]. auto. }
-    split; [intros _; exact SA|intros N; contradiction].
-  - split; cbn [ob_ran ob_res]; [congruence|auto].
-  - split; cbn [ob_ran ob_res]; [congruence|auto].
-  - exfalso. eapply exec_call_never_panics. exact X.
+    + destruct os as [|ob os']; [split; [discriminate|contradiction]|].
+      rewrite andb_true_iff, call_okb_spec, IH. reflexivity.
 Qed.
 
 (* no recorded finding for this property: every failing case is a violation *)
